@@ -291,8 +291,8 @@ class PaxosNode(Entity):
         self._phase1_responses[ballot_number].append(response)
         self._promises_received += 1
 
-        # Check if we have a quorum
-        if len(self._phase1_responses[ballot_number]) >= self.quorum_size:
+        # Start phase 2 exactly once, when the quorum is first reached
+        if len(self._phase1_responses[ballot_number]) == self.quorum_size:
             return self._start_phase2(ballot_number)
 
         return []
@@ -340,6 +340,10 @@ class PaxosNode(Entity):
                 del self._proposal_futures[original_ballot]
             self._proposed_values[new_number] = value
             del self._proposed_values[original_ballot]
+            # The old ballot is abandoned: late Promises for it must not start
+            # a phase 2 (there is no value left to send under that ballot).
+            self._phase1_responses.pop(original_ballot, None)
+            self._phase2_responses.pop(original_ballot, None)
             self._phase1_responses[new_number] = []
             self._phase2_responses[new_number] = 0
 
@@ -442,8 +446,12 @@ class PaxosNode(Entity):
             self._phase2_responses[ballot_number] = 0
         self._phase2_responses[ballot_number] += 1
 
-        if self._phase2_responses[ballot_number] >= self.quorum_size and not self._decided:
-            value = self._proposed_values.get(ballot_number)
+        if (
+            self._phase2_responses[ballot_number] >= self.quorum_size
+            and not self._decided
+            and ballot_number in self._proposed_values
+        ):
+            value = self._proposed_values[ballot_number]
             return self._decide(ballot_number, value)
         return []
 
